@@ -1,1 +1,68 @@
-pub fn replay(_a: &[String]) -> i32 { 2 }
+//! `./check --replay <file>`: re-executes exactly the recorded case, without the explorer, and prints the diagnosis.
+use crate::bnb;
+use crate::family::from_id;
+use crate::run::*;
+use ddo::{Decision, Variable};
+use serde_json::Value;
+
+pub fn replay(args: &[String]) -> i32 {
+    if args.is_empty() { eprintln!("usage: mc replay <file>"); return 2; }
+    let doc: Value = match std::fs::read_to_string(&args[0]).ok().and_then(|s| serde_json::from_str(&s).ok()) { Some(d) => d, None => { eprintln!("cannot read {}", args[0]); return 2; } };
+    let r = &doc["replay"];
+    println!("property={} sig={}\nwhat: {}", doc["property"], doc["sig"], doc["what"]);
+    match r["engine"].as_str().unwrap_or("") {
+        "bnb" => {
+            let (fam, idx, var) = from_id(&r["instance"]);
+            let m = fam.build(idx, var);
+            let cfg = Cfg::from_json(&r["cfg"]);
+            let mut spec = RunSpec::plain(cfg);
+            spec.record = true;
+            let mode = r["mode"].as_str().unwrap_or("plain");
+            if let Some(k) = r["k"].as_u64() { spec.fire_at = k as usize; }
+            let mut primal = None;
+            if mode == "primal" {
+                let p = r["primal"].as_i64().unwrap() as isize;
+                let wit: Vec<Decision> = r["witness"].as_array().unwrap().iter().map(|d| Decision { variable: Variable(d[0].as_u64().unwrap() as usize), value: d[1].as_i64().unwrap() as isize }).collect();
+                spec.primal = Some((p, wit));
+                primal = Some(p);
+            }
+            let out = run_seq(m.as_ref(), &spec);
+            println!("model: {}", m.describe());
+            println!("cfg: {} mode: {} fire_at: {}", cfg.short(), mode, if spec.fire_at == usize::MAX { "never".to_string() } else { spec.fire_at.to_string() });
+            println!("outcome: {}", out.json());
+            let fs = if spec.fire_at == usize::MAX { bnb::judge_plain(m.as_ref(), &cfg, &out, primal) } else { bnb::judge_cut(m.as_ref(), &cfg, &out) };
+            for x in fs.iter() { println!("VIOLATION-REPLAYED property={} sig={} : {}", x.prop, x.sig, x.what); }
+            if let Some(k2) = r["k2"].as_u64() {
+                let mut s2 = RunSpec::plain(cfg);
+                s2.fire_at = k2 as usize;
+                let o2 = run_seq(m.as_ref(), &s2);
+                println!("outcome at the next cut-off index {}: {}", k2, o2.json());
+                if o2.lb < out.lb || o2.ub > out.ub { println!("VIOLATION-REPLAYED property=C19 : bounds are not monotone between poll {} and {}", spec.fire_at, k2); return 1; }
+            }
+            if fs.is_empty() { 0 } else { 1 }
+        }
+        "dd" => crate::dd::replay(r),
+        "sched" => crate::sched::replay(r),
+        "gap" => {
+            struct S(isize, isize);
+            impl ddo::Solver for S {
+                fn maximize(&mut self) -> ddo::Completion { ddo::Completion { is_exact: false, best_value: None } }
+                fn best_value(&self) -> Option<isize> { None }
+                fn best_solution(&self) -> Option<ddo::Solution> { None }
+                fn best_lower_bound(&self) -> isize { self.0 }
+                fn best_upper_bound(&self) -> isize { self.1 }
+                fn set_primal(&mut self, _: isize, _: ddo::Solution) {}
+                fn explored(&self) -> usize { 0 }
+            }
+            let (lb, ub) = (r["lb"].as_i64().unwrap() as isize, r["ub"].as_i64().unwrap() as isize);
+            println!("gap() with lb={} ub={} = {}", lb, ub, ddo::Solver::gap(&S(lb, ub)));
+            0
+        }
+        e if e.starts_with("ops-") || e == "width-grid" || e == "loom" || e == "examples" => {
+            println!("recorded case: {}", r);
+            println!("this engine re-establishes its cases by re-running the (fast, deterministic) search: ./check {}", doc["property"].as_str().unwrap_or(""));
+            0
+        }
+        e => { eprintln!("unknown engine {:?}", e); 2 }
+    }
+}
